@@ -58,7 +58,7 @@ def run_flow(ctx) -> RuleResult:
                 stmt = guard.body[0]
                 ok = (
                     isinstance(stmt, ast.Assign) and len(stmt.targets) == 1 and isinstance(stmt.targets[0], ast.Name)
-                    and stmt.targets[0].id == iter_var and _is_full_reversal(stmt.value, iter_var)
+                    and _is_full_reversal(stmt.value, stmt.targets[0].id)
                 )
             result.ob("'display_inverse' only reverses the whole term order", ok, where, U(parent)[:80])
             if not ok:
@@ -149,6 +149,7 @@ def run_flow(ctx) -> RuleResult:
         guard = node._parent
         want = {"": 1, "-": -1}.get(value)
         ok = False
+        compared = None
         if isinstance(guard, ast.If) and node in guard.body and want is not None:
             for conj in (guard.test.values if isinstance(guard.test, ast.BoolOp) and isinstance(guard.test.op, ast.And) else [guard.test]):
                 if isinstance(conj, ast.Compare) and len(conj.ops) == 1 and isinstance(conj.ops[0], ast.Eq):
@@ -156,8 +157,15 @@ def run_flow(ctx) -> RuleResult:
                     lit = comp.value if isinstance(comp, ast.Constant) else (
                         -comp.operand.value if isinstance(comp, ast.UnaryOp) and isinstance(comp.op, ast.USub)
                         and isinstance(comp.operand, ast.Constant) else None)
-                    if lit == want and isinstance(conj.left, ast.Subscript) and "coefficient" in U(conj.left):
-                        ok = True
+                    if lit == want and isinstance(conj.left, (ast.Subscript, ast.Name)):
+                        compared = U(conj.left)
+            if compared is not None:
+                # the compared expression is the coefficient that the fall-back branch prints with str(...)
+                chain = guard
+                while isinstance(getattr(chain, "_parent", None), ast.If) and chain in chain._parent.orelse:
+                    chain = chain._parent
+                printed = {U(c.args[0]) for c in calls_in(chain) if isinstance(c.func, ast.Name) and c.func.id == "str" and c.args}
+                ok = compared in printed
         result.ob(f"coefficient text {value!r} is elided only for coefficient == {want}", ok, module.loc(node),
                   U(guard.test)[:80] if isinstance(guard, ast.If) else "")
         if not ok:
@@ -242,7 +250,7 @@ def run_unsigned(ctx) -> RuleResult:
         "(the result would depend on the numeric type carrying the argument)",
     )
     n = 0
-    for module, qual, func in ctx.repo.all_functions():
+    for module, qual, func in ctx.repo.analysed_functions():
         if module.is_pyx or "exponent" not in ast.unparse(func):
             continue
         fq = f"{module.name}.{qual}"
